@@ -1,0 +1,105 @@
+//go:build verif
+// +build verif
+
+package leveldb
+
+import (
+	"encoding/binary"
+
+	"github.com/syndtr/goleveldb/leveldb/errors"
+)
+
+// Event kinds (100-199) and yield points (100-109) of the write path, reported through
+// verifEvent / verifYield by the one-line hooks in db_write.go and db_transaction.go.
+//
+// A writer (one call of Write, Put or Delete) is identified by the first 8 bytes (big endian)
+// of the first key of its batch: the harness gives every call a unique non-zero marker there.
+// A goroutine id does not exist in Go, batch addresses are reused by the batch pool and Put has
+// no batch before it owns the lock, whereas the first key is available at every hook point (as
+// batch, as writeMerge.batch or as writeMerge.key) and survives merging.  Keys shorter than 8
+// bytes give id 0 ("not a harness writer").
+//
+// Placement rule: an event for an operation that may unblock another goroutine (reply, ack,
+// hand-over, release) is reported BEFORE the operation ("pre"), an event for an operation that
+// blocks until somebody else acted (lock acquisition, receive) AFTER it ("post").  With events
+// recorded under one global lock this makes the recorded order consistent with the real order of
+// every pair of dependent operations.
+const (
+	VerifEvSelLock   = 100 // a=writer               post: select took db.writeLockC <- {}
+	VerifEvSelHanded = 101 // a=writer               post: <-db.writeMergedC gave false: lock handed over
+	VerifEvSelMerged = 102 // a=writer               post: <-db.writeMergedC gave true
+	VerifEvSelPerr   = 103 // a=writer               post: select took <-db.compPerErrC
+	VerifEvSelClosed = 104 // a=writer b=0|1         post: select took <-db.closeC (b=1: db.ok() failed before the select)
+
+	VerifEvFlushOk       = 110 // a=leader b=mdbFree
+	VerifEvFlushFail     = 111 // a=leader b=error class
+	VerifEvMergeRecv     = 112 // a=leader b=incoming   post: merge request received
+	VerifEvMergeTrue     = 113 // a=leader b=incoming   pre:  db.writeMergedC <- true
+	VerifEvMergeOverflow = 114 // a=leader b=incoming   overflow = true; break merge
+	VerifEvJournalOk     = 116 // a=leader b=seq of the record
+	VerifEvJournalFail   = 117 // a=leader b=error class
+	VerifEvApplied       = 118 // a=leader              putMem loop done
+	VerifEvPublish       = 119 // a=leader b=db.seq after addSeq
+	VerifEvRotateOk      = 120 // a=leader
+	VerifEvRotateFail    = 121 // a=leader b=error class
+
+	VerifEvUnlock       = 122 // a=merged b=overflow<<4|error class   entry of unlockWrite
+	VerifEvAckSend      = 123 // a=i b=error class   pre:  db.writeAckC <- err
+	VerifEvAckSent      = 124 // a=i                 post: the send completed
+	VerifEvHandover     = 125 //                     pre:  db.writeMergedC <- false
+	VerifEvHandoverDone = 126 //                     post
+	VerifEvRelease      = 127 //                     pre:  <-db.writeLockC
+
+	VerifEvCRLock    = 130 // post: CompactRange owns the write lock
+	VerifEvCRUnlock  = 131 // pre:  CompactRange releases it
+	VerifEvROLock    = 132 // post: SetReadOnly owns the write lock (never released by it)
+	VerifEvROSent    = 133 // post: SetReadOnly delivered ErrReadOnly to compactionError
+	VerifEvTxnLock   = 134 // post: OpenTransaction owns the write lock
+	VerifEvTxnUnlock = 135 // pre:  Transaction.setDone releases it
+
+	VerifYpMergeRecv = 100 // leader has received a merge request, before the size test
+	VerifYpUnlock    = 101 // entry of unlockWrite
+	VerifYpLocked    = 102 // entry of writeLocked (lock owned, before flush)
+	VerifYpJournal   = 103 // merge loop left, before the journal write
+)
+
+// Error classes carried by events.
+const (
+	VerifErrNil    = 0
+	VerifErrClosed = 1
+	VerifErrPerr   = 2 // ErrReadOnly or a corruption error: what compactionError treats as persistent
+	VerifErrOther  = 3
+)
+
+func verifErrClass(err error) uint64 {
+	switch {
+	case err == nil:
+		return VerifErrNil
+	case err == ErrClosed:
+		return VerifErrClosed
+	case err == ErrReadOnly || errors.IsCorrupted(err):
+		return VerifErrPerr
+	}
+	return VerifErrOther
+}
+
+// VerifErrClass exports the classification for the harness.
+func VerifErrClass(err error) uint64 { return verifErrClass(err) }
+
+// verifWID derives the writer id from a batch (first record's key) or from a bare key.
+func verifWID(b *Batch, key []byte) uint64 {
+	if b != nil && len(b.index) > 0 {
+		key = b.index[0].k(b.data)
+	}
+	if len(key) < 8 {
+		return 0
+	}
+	return binary.BigEndian.Uint64(key)
+}
+
+func verifB(b bool) uint64 {
+	if b {
+		return 1
+	}
+	return 0
+}
